@@ -322,3 +322,46 @@ func gen6(rng *rand.Rand, xid uint32, wellFormed bool) []byte {
 	}
 	return msg
 }
+
+// noise4 returns legal options that none of the decision tables depends on: whatever they are, the
+// outcome a table prescribes must not change. (Vendor class of PXE ROMs, maximum message size, client
+// FQDN, architecture, machine id, user class, host name; relay agent information and client id on request.)
+func noise4(rng *rand.Rand, with82, with61 bool) []pkt.Opt4 {
+	var o []pkt.Opt4
+	if rng.Intn(3) == 0 {
+		o = append(o, pkt.O4(60, []byte([]string{"PXEClient:Arch:00000:UNDI:002001", "PXEClient", "MSFT 5.0", "udhcp 1.36", "HTTPClient:Arch:00016"}[rng.Intn(5)])...))
+	}
+	if rng.Intn(3) == 0 {
+		v := []uint16{576, 577, 590, 600, 1000, 1500, 65535, 575, 100}[rng.Intn(9)]
+		o = append(o, pkt.O4(57, byte(v>>8), byte(v)))
+	}
+	if rng.Intn(4) == 0 {
+		o = append(o, pkt.O4(12, []byte("client-host")...))
+	}
+	if rng.Intn(5) == 0 {
+		o = append(o, pkt.O4(93, 0, byte(rng.Intn(12))))
+	}
+	if rng.Intn(5) == 0 {
+		o = append(o, pkt.O4(97, append([]byte{0}, make([]byte, 16)...)...))
+	}
+	if rng.Intn(5) == 0 {
+		o = append(o, pkt.O4(81, 0, 0, 0, 'h', '.', 'e', 'x'))
+	}
+	if rng.Intn(5) == 0 {
+		o = append(o, pkt.O4(77, 4, 'i', 'P', 'X', 'E'))
+	}
+	if with82 && rng.Intn(3) == 0 {
+		l := []int{3, 12, 60, 200, 255}[rng.Intn(5)]
+		v := make([]byte, l)
+		rng.Read(v)
+		v[0], v[1] = 1, byte(l-2)
+		o = append(o, pkt.O4(82, v...))
+	}
+	if with61 && rng.Intn(3) == 0 {
+		l := []int{2, 7, 19, 120, 255}[rng.Intn(5)]
+		v := make([]byte, l)
+		rng.Read(v)
+		o = append(o, pkt.O4(61, v...))
+	}
+	return o
+}
